@@ -64,30 +64,40 @@ Proof.
   - intros _ i pc H. destruct i; discriminate.
 Qed.
 
+Ltac linv_split :=
+  unfold LInv; cbn [lstopped lstopch lrunningch lcleaner lcallers];
+  split; [|split; [|split; [|split; [|split]]]].
+
 Lemma lstep_LInv s e s' : LInv s -> lstep s e = Some s' -> LInv s'.
 Proof.
   intros (H1 & H2 & H3 & H4 & H5 & H6).
   destruct e as [| | | |i|i|i]; cbn [lstep].
-  - destruct (lcleaner s) eqn:Hc; try discriminate. intro H; inversion H; subst s'; clear H.
-    unfold LInv; cbn. repeat split; auto; try discriminate.
-    intro Hr. apply H1 in Hr. congruence.
-  - destruct (lcleaner s) eqn:Hc; try discriminate. intro H; inversion H; subst s'; clear H.
-    unfold LInv; cbn. repeat split; auto; try discriminate.
-    intro Hr. apply H1 in Hr. congruence.
-  - destruct (lcleaner s) eqn:Hc; try discriminate.
+  - (* LTick *)
+    destruct (lcleaner s) eqn:Hc; try discriminate. intro H; inversion H; subst s'; clear H.
+    linv_split; auto.
+    + split; [intro Hr; apply H1 in Hr; discriminate | discriminate].
+    + discriminate.
+  - (* LCleanupDone *)
+    destruct (lcleaner s) eqn:Hc; try discriminate. intro H; inversion H; subst s'; clear H.
+    linv_split; auto.
+    + split; [intro Hr; apply H1 in Hr; discriminate | discriminate].
+    + discriminate.
+  - (* LSeeStop *)
+    destruct (lcleaner s) eqn:Hc; try discriminate.
     destruct (lstopch s) eqn:Hs; try discriminate. intro H; inversion H; subst s'; clear H.
-    unfold LInv; cbn. repeat split; auto.
-    intros _ Hf. rewrite Hs in Hf. discriminate.
-  - intro H; inversion H; subst s'; clear H.
-    unfold LInv; cbn. repeat split; auto; try apply H1.
+    linv_split; auto.
+    split; reflexivity.
+  - (* LStopCall *)
+    intro H; inversion H; subst s'; clear H.
+    linv_split; auto.
     + intros i Hi. apply nth_snoc in Hi as [Hi|Hi]; [eauto | discriminate].
     + intros Ha Hb. destruct (H5 Ha Hb) as [j Hj]. exists j.
       rewrite nth_error_app1; [exact Hj|]. apply nth_error_Some. congruence.
     + intros Ha i pc Hi. apply nth_snoc in Hi as [Hi|Hi]; [eauto | exact Hi].
-  - destruct (nth_error (lcallers s) i) as [[| | |]|] eqn:Hi; try discriminate.
+  - (* LStopCas *)
+    destruct (nth_error (lcallers s) i) as [[| | |]|] eqn:Hi; try discriminate.
     intro H; inversion H; subst s'; clear H.
-    unfold LInv; cbn. repeat split; auto; try apply H1.
-    + intro Hs. reflexivity.
+    linv_split; auto.
     + intros j Hj. apply nth_set_nth in Hj as [[_ Hj]|Hj]; [|eauto].
       destruct (lstopped s); discriminate.
     + intros _ Hb. destruct (lstopped s) eqn:Hst.
@@ -96,18 +106,20 @@ Proof.
         rewrite nth_set_nth_neq by exact Hne. exact Hj.
       * exists i. eapply nth_set_nth_eq. exact Hi.
     + discriminate.
-  - destruct (nth_error (lcallers s) i) as [[| | |]|] eqn:Hi; try discriminate.
+  - (* LStopClose *)
+    destruct (nth_error (lcallers s) i) as [[| | |]|] eqn:Hi; try discriminate.
     intro H; inversion H; subst s'; clear H.
     assert (Hst : lstopped s = true).
     { destruct (lstopped s) eqn:Hst; [reflexivity|]. specialize (H6 eq_refl i _ Hi). discriminate. }
-    unfold LInv; cbn. repeat split; auto; try apply H1.
+    linv_split; auto.
     + intros j Hj. apply nth_set_nth in Hj as [[_ Hj]|Hj]; [discriminate | eauto].
     + discriminate.
     + intros Ha. congruence.
-  - destruct (nth_error (lcallers s) i) as [[| | |]|] eqn:Hi; try discriminate.
+  - (* LStopReturn *)
+    destruct (nth_error (lcallers s) i) as [[| | |]|] eqn:Hi; try discriminate.
     destruct (lrunningch s) eqn:Hr; try discriminate.
     intro H; inversion H; subst s'; clear H.
-    unfold LInv; cbn. repeat split; auto; try apply H1.
+    linv_split; auto.
     + intros Ha Hb. destruct (H5 Ha Hb) as [j Hj]. exists j.
       destruct (Nat.eq_dec i j) as [->|Hne]; [congruence|].
       rewrite nth_set_nth_neq by exact Hne. exact Hj.
